@@ -67,14 +67,40 @@ pub fn write_elf(d: &mut ElfDesc, rng: &mut Rng) -> Vec<u8> {
     // section name table
     let mut shstr: Vec<u8> = vec![0];
     let mut name_idx: Vec<u32> = Vec::new();
+    // names are tail-merged the way GNU ld does it: a name that is the suffix of another section's name is not
+    // stored again, its sh_name points into the longer string (".got" inside ".rela.got")
+    let names: Vec<String> = d.sh.iter().map(|s| s.name.clone()).collect();
+    let mut stored: std::collections::HashMap<String, u32> = std::collections::HashMap::new();
     for s in &d.sh {
         if s.name.is_empty() {
             name_idx.push(0);
-        } else {
-            name_idx.push(shstr.len() as u32);
-            shstr.extend_from_slice(s.name.as_bytes());
-            shstr.push(0);
+            continue;
         }
+        if let Some(host) = names.iter().find(|n| n.len() > s.name.len() && n.ends_with(&s.name)) {
+            let base = match stored.get(host) {
+                Some(b) => *b,
+                None => {
+                    let b = shstr.len() as u32;
+                    shstr.extend_from_slice(host.as_bytes());
+                    shstr.push(0);
+                    stored.insert(host.clone(), b);
+                    b
+                }
+            };
+            name_idx.push(base + (host.len() - s.name.len()) as u32);
+            continue;
+        }
+        let b = match stored.get(&s.name) {
+            Some(b) => *b,
+            None => {
+                let b = shstr.len() as u32;
+                shstr.extend_from_slice(s.name.as_bytes());
+                shstr.push(0);
+                stored.insert(s.name.clone(), b);
+                b
+            }
+        };
+        name_idx.push(b);
     }
     // symbol string table + symbol table
     let mut strtab: Vec<u8> = vec![0];
@@ -249,6 +275,13 @@ pub fn gen_desc(k: usize, o: &GenOpts, rng: &mut Rng) -> ElfDesc {
             }
         }
     }
+    // --- now and then one segment's memory size reaches beyond every later segment (a big .bss declared in an
+    //     early segment): the image ends at the HIGHEST extent, which is then not the last or highest-starting one
+    if nload >= 2 && rng.chance(1, 6) {
+        let i = rng.below(nload - 1);
+        let top = loads.iter().map(|p| p.va + p.msz).max().unwrap_or(0);
+        loads[i].msz = top - loads[i].va + 1 + rng.below(300) as u32;
+    }
     // --- the order of the PT_LOAD headers in the table is the linker's (ascending) two times out of three,
     //     otherwise arbitrary (the loaded image does not depend on it)
     if rng.chance(1, 3) {
@@ -305,6 +338,12 @@ pub fn gen_desc(k: usize, o: &GenOpts, rng: &mut Rng) -> ElfDesc {
     if let Some((a, s)) = got {
         secs.push(Sh { name: ".got".into(), ty: 1, addr: a, off: 0, size: s, link: 0, entsize: 4 });
     }
+    if got.is_some() && rng.chance(1, 3) {
+        secs.push(Sh { name: ".rela.got".into(), ty: 4, addr: 0, off: 0x180, size: 0, link: 0, entsize: 12 });
+    }
+    if rng.chance(1, 4) {
+        secs.push(Sh { name: ".user.stack".into(), ty: 8, addr: rng.u32() & 0xfff, off: 0, size: 0x10, link: 0, entsize: 0 });
+    }
     for _ in 0..rng.below(3) {
         secs.push(Sh { name: format!(".x{}", rand_name(rng, 3)), ty: 1, addr: rng.u32() & 0xffff, off: 0, size: rng.below(64) as u32, link: 0, entsize: 0 });
     }
@@ -354,7 +393,12 @@ pub fn gen_desc(k: usize, o: &GenOpts, rng: &mut Rng) -> ElfDesc {
     for wi in 0..nwords {
         let len = 1 + if rng.chance(1, 12) { rng.below(o.max_wordlen) } else { rng.below(9) };
         for _ in 0..len {
-            args.push(33 + rng.below(94) as u8);
+            if rng.chance(1, 12) {
+                // multi-byte UTF-8 inside a word: the copy is byte-exact
+                args.extend_from_slice(rng.pick(&["\u{e9}", "\u{3042}", "\u{20ac}", "\u{1f600}"]).as_bytes());
+            } else {
+                args.push(33 + rng.below(94) as u8);
+            }
         }
         if wi + 1 < nwords {
             ws(rng, &mut args, 1);
@@ -397,7 +441,7 @@ pub fn run_elf_load(args: &Args) -> Result<()> {
                     }
                 }
                 let mut rng = Rng::new(seed ^ hash_str("elf"), k as u64);
-                let big = thorough && k % 10 == 0;
+                let big = thorough && k % 37 == 3; // ~100 files with segments up to 64 KiB, spread over all threads
                 let o = GenOpts {
                     max_seg: if big { 65536 } else if thorough { 2048 } else { 512 },
                     max_got: if thorough { 64 } else { 16 },
